@@ -258,6 +258,10 @@ impl Sim {
                 cfg.max_size_per_msg = 40;
             }
             cfg.max_committed_size_per_ready = *rng.pick(&[u64::MAX, u64::MAX, 30, 100]);
+            if self.focus == 2 && rng.chance(2, 3) {
+                // small pages: scans of unapplied entries and hand-outs take several pages
+                cfg.max_committed_size_per_ready = *rng.pick(&[1u64, 30, 60]);
+            }
             cfg.max_apply_unpersisted_log_limit = *rng.pick(&[0u64, 0, 1, 3]);
             // priorities are only set later through the SetPriority knob: at term 0 a priority-based
             // pre-vote rejection hits the known finding F9 (term-0 response), which would mask everything else
@@ -651,6 +655,8 @@ impl Sim {
         // the write is durable at once in the synchronous modes; asynchronous Readies are fsynced later
         let mode = match forced {
             Some(m) => m,
+            // the transfer/membership profile lets the application lag behind with applying
+            None if self.focus == 2 => 3 + self.rng.below(7),
             None => self.rng.below(10),
         };
         self.write_ready(i, &rv, mode < 7);
@@ -1156,6 +1162,16 @@ impl Sim {
                         CcKind::V2(cc_v2(self.rng.below(3), &[(ty, peer)]))
                     };
                     self.call(l, Call::ProposeConfChange(vec![], cc));
+                }
+                4 if self.rng.chance(1, 2) => {
+                    // the node with the largest apply backlog campaigns
+                    let mut best = any;
+                    for j in 0..self.nodes.len() {
+                        if self.nodes[j].driver.is_some() && self.nodes[j].to_apply.len() > self.nodes[best].to_apply.len() {
+                            best = j;
+                        }
+                    }
+                    self.call(best, Call::Campaign);
                 }
                 4 => {
                     // lose a message (keeps transfers and changes pending)
